@@ -63,6 +63,7 @@ type world struct {
 	spent  []sdkmath.Int
 	staked common.Address
 	dead   bool     // a monitor fired: the rest of this history is not meaningful
+	lastRet []byte  // return data of the last successful eth transaction
 	seq    []string // op lines of this history including the one being executed (replay of a violation)
 }
 
@@ -223,6 +224,7 @@ func alKey(s string) string {
 // ethTx sends a signed eth transaction from the signer to the staking precompile; returns "" on success, else the
 // error text.  The whole call runs in a cache context that is only written when it did not panic (as runTx does).
 func (w *world) ethTx(from int, data []byte) (errText string) {
+	w.lastRet = nil
 	sg := w.sign[from]
 	cctx, write := w.s.Ctx.CacheContext()
 	res := hx.Try(func() error {
@@ -246,6 +248,7 @@ func (w *world) ethTx(from int, data []byte) (errText string) {
 			}
 			return fmt.Errorf("vm: %s", msg)
 		}
+		w.lastRet = common.CopyBytes(r.Ret)
 		return nil
 	})
 	if res == "ok" {
@@ -351,6 +354,10 @@ func (w *world) invariants(after string) {
 		w.violate(strings.TrimPrefix(res, "err:"))
 		return
 	}
+	w.refcounts(after)
+	if w.dead {
+		return
+	}
 	// Σ delegations = validator shares (all delegations in the store, not only the tracked accounts)
 	for i, v := range w.vals {
 		val, err := app.StakingKeeper.GetValidator(w.ctx(), v)
@@ -406,6 +413,7 @@ func (w *world) apply(line string) string {
 	before := w.snapshot()
 	kind := "ok"
 	class := f[0]
+	ret := ""
 	switch f[0] {
 	case "dump":
 	case "block":
@@ -493,6 +501,9 @@ func (w *world) apply(line string) string {
 		kind = kindOf(w.ethTx(from, data), true)
 		class = w.checkTransfer("transferShares", before, kind, from, to, v, x, recv)
 		w.checkPayouts("transferShares", kind, from, to, v, erf, ert, bf, bt)
+		w.checkFresh("transferShares", kind, from, to, v)
+		ret = w.retOf(kind, precompile.NewTransferSharesMethod(nil).TransferShare)
+		w.transferStats(before, kind, from, to, v, x, erf)
 	case "transferFrom":
 		a := ints(4)
 		x := bigOf(f[5])
@@ -509,6 +520,9 @@ func (w *world) apply(line string) string {
 		kind = kindOf(w.ethTx(sp, data), true)
 		class = w.checkTransfer("transferFromShares", before, kind, from, to, v, x, recv)
 		w.checkPayouts("transferFromShares", kind, from, to, v, erf, ert, bf, bt)
+		w.checkFresh("transferFromShares", kind, from, to, v)
+		ret = w.retOf(kind, precompile.NewTransferFromSharesMethod(nil).TransferShare)
+		w.transferStats(before, kind, from, to, v, x, erf)
 		allow1 := app.StakingKeeper.GetAllowance(w.ctx(), w.vals[v], w.accs[from], w.accs[sp])
 		if kind == "ok" {
 			if allow0.Cmp(x) < 0 {
@@ -535,7 +549,170 @@ func (w *world) apply(line string) string {
 	if !w.dead && f[0] != "dump" && f[0] != "block" {
 		w.invariants(f[0])
 	}
-	return kind + " | " + w.dump()
+	return kind + " | " + w.dump() + ret
+}
+
+// retOf: the values a successful transferShares / transferFromShares call returns (token worth of the moved shares,
+// reward coins paid to the recipient), compared with the model.
+func (w *world) retOf(kind string, m *precompile.TransferShare) string {
+	if kind != "ok" {
+		return ""
+	}
+	token, reward, err := m.UnpackOutput(w.lastRet)
+	if err != nil {
+		return " ret=undecodable"
+	}
+	return fmt.Sprintf(" ret=%s:%s", token, reward)
+}
+
+// transferStats records the measured distribution of the transfer inputs.
+func (w *world) transferStats(before snap, kind string, from, to, v int, x *big.Int, erf *big.Int) {
+	if kind != "ok" || from == to {
+		return
+	}
+	ctx := w.ctx()
+	slashed := false
+	w.s.App.DistrKeeper.IterateValidatorSlashEvents(ctx, func(val sdk.ValAddress, _ uint64, _ distrtypes.ValidatorSlashEvent) bool {
+		if bytes.Equal(val, w.vals[v]) {
+			slashed = true
+			return true
+		}
+		return false
+	})
+	if slashed {
+		w.out.Count("transfer-ok:validator-slashed-before")
+	}
+	if !before.sh(from, v).Equal(before.sh(from, v).TruncateDec()) {
+		w.out.Count("transfer-ok:sender-fractional-shares")
+	}
+	if !before.sh(to, v).IsZero() && !before.sh(to, v).Equal(before.sh(to, v).TruncateDec()) {
+		w.out.Count("transfer-ok:recipient-fractional-shares")
+	}
+	if erf != nil && erf.Sign() > 0 {
+		w.out.Count("transfer-ok:sender-rewards-paid")
+	}
+	if !before.valShare[v].Equal(sdkmath.LegacyNewDecFromInt(before.valTok[v])) {
+		w.out.Count("transfer-ok:exchange-rate-not-1")
+	}
+}
+
+// checkFresh: after a successful transfer between different accounts each party's starting info is exactly the one
+// the SDK's own initializeDelegation would write for its new shares now (stake re-derived from the shares at the
+// validator's exchange rate, current height, a period whose cumulative ratio equals that of the period just ended),
+// the validator's current rewards are zero, and a party without a delegation has no starting info.
+func (w *world) checkFresh(name, kind string, from, to, v int) {
+	if kind != "ok" || from == to || w.dead {
+		return
+	}
+	ctx := w.ctx()
+	app := w.s.App
+	val, err := app.StakingKeeper.GetValidator(ctx, w.vals[v])
+	if err != nil {
+		return
+	}
+	cur, _ := app.DistrKeeper.GetValidatorCurrentRewards(ctx, w.vals[v])
+	if !cur.Rewards.IsZero() {
+		w.violate(fmt.Sprintf("%s left validator current rewards %s (the period was not ended)", name, cur.Rewards))
+		return
+	}
+	last, _ := app.DistrKeeper.GetValidatorHistoricalRewards(ctx, w.vals[v], cur.Period-1)
+	for _, d := range []int{from, to} {
+		who := "sender"
+		if d == to {
+			who = "recipient"
+		}
+		has, _ := app.DistrKeeper.HasDelegatorStartingInfo(ctx, w.vals[v], w.accs[d])
+		del, err := app.StakingKeeper.GetDelegation(ctx, w.accs[d], w.vals[v])
+		if err != nil {
+			if has {
+				w.violate(fmt.Sprintf("%s left a starting info for the %s who has no delegation any more", name, who))
+				return
+			}
+			continue
+		}
+		if !has {
+			w.violate(fmt.Sprintf("%s left the %s's delegation without a starting info", name, who))
+			return
+		}
+		si, _ := app.DistrKeeper.GetDelegatorStartingInfo(ctx, w.vals[v], w.accs[d])
+		want := val.TokensFromSharesTruncated(del.Shares)
+		if !si.Stake.Equal(want) {
+			w.violate(fmt.Sprintf("%s left the %s with starting stake %s, TokensFromSharesTruncated(its shares %s) = %s (reward entitlement not re-derived from the shares)",
+				name, who, si.Stake, del.Shares, want))
+			return
+		}
+		if si.Height != uint64(ctx.BlockHeight()) {
+			w.violate(fmt.Sprintf("%s left the %s with starting height %d at block %d", name, who, si.Height, ctx.BlockHeight()))
+			return
+		}
+		rec, _ := app.DistrKeeper.GetValidatorHistoricalRewards(ctx, w.vals[v], si.PreviousPeriod)
+		if rec.ReferenceCount == 0 || !decCoinsRawEq(rec.CumulativeRewardRatio, last.CumulativeRewardRatio) {
+			w.violate(fmt.Sprintf("%s left the %s starting at period %d (refs %d, ratio %s) while the period just ended is %d (ratio %s)",
+				name, who, si.PreviousPeriod, rec.ReferenceCount, decCoinsRaw(rec.CumulativeRewardRatio), cur.Period-1, decCoinsRaw(last.CumulativeRewardRatio)))
+			return
+		}
+	}
+}
+
+func decCoinsRawEq(a, b sdk.DecCoins) bool { return decCoinsRaw(a) == decCoinsRaw(b) }
+
+// refcounts: per validator and period, the reference count of the historical record = starting infos pointing at it
+// + 1 for the period before the current one + slash events recorded for it (the per-period form of the SDK's
+// ReferenceCountInvariant); a delegation exists exactly when a starting info exists.
+func (w *world) refcounts(after string) {
+	ctx := w.ctx()
+	app := w.s.App
+	type key struct {
+		v int
+		p uint64
+	}
+	want := map[key]uint32{}
+	for i, v := range w.vals {
+		if cur, err := app.DistrKeeper.GetValidatorCurrentRewards(ctx, v); err == nil && cur.Period > 0 {
+			want[key{i, cur.Period - 1}]++
+		}
+	}
+	bad := ""
+	app.DistrKeeper.IterateDelegatorStartingInfos(ctx, func(val sdk.ValAddress, del sdk.AccAddress, info distrtypes.DelegatorStartingInfo) bool {
+		want[key{w.valIdx(val), info.PreviousPeriod}]++
+		if _, err := app.StakingKeeper.GetDelegation(ctx, del, val); err != nil && bad == "" {
+			bad = fmt.Sprintf("starting info of account %d at validator %d without a delegation", w.accIdx(del), w.valIdx(val))
+		}
+		return false
+	})
+	app.DistrKeeper.IterateValidatorSlashEvents(ctx, func(val sdk.ValAddress, _ uint64, ev distrtypes.ValidatorSlashEvent) bool {
+		want[key{w.valIdx(val), ev.ValidatorPeriod}]++
+		return false
+	})
+	got := map[key]uint32{}
+	app.DistrKeeper.IterateValidatorHistoricalRewards(ctx, func(val sdk.ValAddress, period uint64, rw distrtypes.ValidatorHistoricalRewards) bool {
+		got[key{w.valIdx(val), period}] = rw.ReferenceCount
+		return false
+	})
+	for k, n := range want {
+		if got[k] != n && bad == "" {
+			bad = fmt.Sprintf("historical record of validator %d period %d has reference count %d, referenced by %d (starting infos + current period + slash events)", k.v, k.p, got[k], n)
+		}
+	}
+	for k, n := range got {
+		if want[k] != n && bad == "" {
+			bad = fmt.Sprintf("historical record of validator %d period %d has reference count %d, referenced by %d (starting infos + current period + slash events)", k.v, k.p, n, want[k])
+		}
+	}
+	if bad == "" {
+		for _, v := range w.vals {
+			dels, _ := app.StakingKeeper.GetValidatorDelegations(ctx, v)
+			for _, d := range dels {
+				da, _ := sdk.AccAddressFromBech32(d.DelegatorAddress)
+				if has, _ := app.DistrKeeper.HasDelegatorStartingInfo(ctx, v, da); !has {
+					bad = fmt.Sprintf("delegation of account %d at validator %d without a starting info", w.accIdx(da), w.valIdx(v))
+				}
+			}
+		}
+	}
+	if bad != "" {
+		w.violate("reference counts inconsistent after " + after + ": " + bad)
+	}
 }
 
 // checkTransfer evaluates the transfer clauses of the property on the real state; returns the input class.
@@ -818,11 +995,22 @@ func (g *gen) next() string {
 			a := hx.Pick(r, als)
 			allow := w.s.App.StakingKeeper.GetAllowance(w.ctx(), w.vals[a.v], w.accs[a.o], w.accs[a.s])
 			amt := g.transferAmount(a.o, a.v)
-			switch r.Intn(4) {
+			whole := g.sharesOf(a.o, a.v).TruncateInt().BigInt()
+			lim := allow
+			if whole.Cmp(lim) < 0 {
+				lim = whole
+			}
+			switch r.Intn(6) {
 			case 0:
 				amt = allow
 			case 1:
 				amt = new(big.Int).Add(allow, big.NewInt(1))
+			case 2, 3:
+				amt = lim // as much as both the allowance and the delegation permit
+			case 4:
+				if lim.Sign() > 0 {
+					amt = new(big.Int).Add(new(big.Int).Rand(r, lim), big.NewInt(1))
+				}
 			}
 			return fmt.Sprintf("transferFrom %d %d %d %d %s", a.s, a.o, g.pickTo(a.o), a.v, amt)
 		}
@@ -1000,7 +1188,7 @@ func TestC11(t *testing.T) {
 		runSeq(nVal, nUsers, ls, 0)
 	}
 
-	nSeq := hx.N(36, 400)
+	nSeq := hx.N(50, 400)
 	for i := 0; i < nSeq; i++ {
 		nVal := 1 + rng.Intn(3)
 		nUsers := 2 + rng.Intn(3)
